@@ -91,6 +91,21 @@ structure Env where
   cpu_neon : Bool
   /-- the contents of `_mm_undefined_ps()` (arbitrary) -/
   undef128 : BitVec 128
+  /-- further target features / detected features the source does not consult today; present (default `false`) so that a
+  changed `cfg!(target_feature = "…")` or `is_x86_feature_detected!("…")` still yields an elaborating model, whose theorems then
+  say what is wrong with it -/
+  tf_avx : Bool := false
+  tf_sse2 : Bool := false
+  tf_sse4_1 : Bool := false
+  tf_sse4_2 : Bool := false
+  tf_avx512vl : Bool := false
+  tf_avx512dq : Bool := false
+  cpu_avx : Bool := false
+  cpu_sse2 : Bool := false
+  cpu_sse4_1 : Bool := false
+  cpu_sse4_2 : Bool := false
+  cpu_avx512vl : Bool := false
+  cpu_avx512dq : Bool := false
 
 def Exec.isOk {α} : Exec α → Bool
   | .ok _ => true
